@@ -40,6 +40,8 @@ def streams(rng, tier, ctx):
                     if queue and r.chance(1, 3):
                         sim.send("A", r.below(3), r.pick([2, 3]), queue.pop(0))
             forged = 0
+            forged_by_seq = {}      # sequence id -> header mutations already used: two forged fragments that agree with each other could
+            #                         assemble into a packet nobody submitted (legitimately: the first fragment seen defines the packet)
             for round_ in range(40):
                 sim.run(3, r.pick([1_000_000, 10_000_000, 40_000_000]), net, back, traffic)
                 # forged-header copy of a fragment in flight (same ids, other leads / last id / channel)
@@ -47,12 +49,14 @@ def streams(rng, tier, ctx):
                     f = r.pick(sim.frames["A"][-6:])
                     if f["kind"] == "D" and f["dgs"] and f["dgs"][0]["last"] > 0:
                         d = f["dgs"][0]
-                        mut = r.pick(["chan", "wpl", "last"])
+                        free = [m for m in ["chan", "wpl", "last"] if m not in forged_by_seq.get(d["seq"], ())]
+                        mut = r.pick(free) if free else None
+                        forged_by_seq.setdefault(d["seq"], set()).add(mut)
                         chan = (d["chan"] + 1) % 64 if mut == "chan" else d["chan"]
                         wpl = d["wpl"] + 1 if mut == "wpl" else d["wpl"]
                         cpl = d["cpl"] if d["cpl"] == 0 or d["cpl"] >= wpl else wpl
                         last = d["last"] + 1 if mut == "last" else d["last"]
-                        p = sim.probe("B")
+                        p = sim.probe("B") if mut else None
                         if p is not None:
                             fid = (int(p["aq"][0]) + 5) & 0xFFFFFFFF
                             txt = "data %d 0 1 %d %d %d %d %d %d @%d:%d" % (fid, d["seq"], chan, wpl, cpl, d["frag"] if d["frag"] <= last else 0, last, 999 + forged, F if d["frag"] < last else 7)
